@@ -63,6 +63,10 @@ CHECKS = {
             "Decode totality and accessor safety as zero-annotation no-panic obligations with precondition true (slice bounds of the version prefix, Token[0], TokenProofs[0], ...) on DecodeToken/V3/V4 and every accessor of both formats on arbitrary decoded values; Amount = sum of the proofs mod 2^64 in both formats (nested-loop invariants over spec sums); NewTokenV3 clears DLEQ when not requested; NewTokenV4 per-proof field conversion (amount, secret, witness, C decoded from hex) and DLEQ present iff requested and available, complete (e, s, r) or error. The full round trip through the real codecs incl. the V4 grouping map is a BOUNDED stand-in (bounded/token_roundtrip).",
             "Assumed: json/cbor/base64 libraries do not panic (A-LIB1). Bounded (not proved): round trip build->serialize->decode, within the bound in evidence.",
             "DESIGN.md §8 C14"),
+    "C20": (True,
+            "The response writer is ghost state (status, body). All 13 handlers of mint/server.go proved: the status is 200 or 400; when the mint operation was executed and refused, the answer is 400; (non-cached handlers) 200 only after exactly one successful execution; every error handed to writeErr is a cashu error value or a non-nil *cashu.Error that does NOT carry an internal (DB / Lightning backend) code - proved at every writeErr call site from error-shape postconditions that are themselves proved on every mint API function and helper (Swap, MintTokens, MeltTokens, Request/GetMintQuote*, Request/GetMeltQuote*, ProofsStateCheck, RestoreSignatures, verifyProofs, verifyBlindedMessages, signBlindedMessages, settle*, nut11/nut14 verifiers and parsers, decodeJsonReqBody); writeErr proved to answer 400 with the JSON of exactly that error. NUT-19 cache (swap and mint/bolt11): Cache.Get/Set proved against a map model (hit <=> key present, other keys untouched, stored value = given bytes); the key handed to Get and Set is method + URL + body bytes (call-site clauses); the operation runs only after a decode success and a cache miss; Set is reached only after the operation succeeded; a hit is answered with the cached bytes without executing; a refusal leaves the cache's key set unchanged; the bytes cached are the bytes written.",
+            "Assumed: net/http, gorilla/mux (route variables), io.ReadAll, encoding/json as trusted contracts (json output is an uninterpreted function of the marshalled value, URL objects immutable during the exchange); logging is trusted to have no effect. NOT decided: byte-level JSON shapes (field names, enum strings, sorted key maps) - library behaviour driven by struct tags; websocket endpoint; the background cache janitor goroutine; routing/method matching (gorilla/mux).",
+            "DESIGN.md §8 C20"),
     "C15": (True,
             "ProofsStateCheck: result is pointwise the ghost state in request order with the stored witness (SPENT over PENDING over UNSPENT), proved incl. the map-range resolution loop and the two IndexFunc closures; RestoreSignatures: returns exactly signed messages of the request, paired with the stored amount/id/C_/e/s; every successful Swap/MintTokens/MeltTokens stores its signatures / spent proofs.",
             "Assumed: storage.MintDB contracts (SQL text: bounded conformance when present); slices.IndexFunc modelled natively.",
